@@ -79,6 +79,8 @@ type c18Part struct {
 	Zip  int     `json:"zip"`
 	// Present=false: declared / listed as usual but absent from the archive
 	Present bool `json:"present"`
+	// Notes: the part has an attachment of its own (PPTX notes slide) with token ID+200
+	Notes bool `json:"notes"`
 }
 
 type c18Prof struct {
@@ -200,7 +202,11 @@ func c18Members(c *c18Case) ([]ooxmlw.Member, string) {
 	case "pptx":
 		d := &ooxmlw.Deck{Extras: c.Prof.Extras, InfraFirst: c.Prof.Infra, RelsInfraFirst: c.Prof.Chain == "infraFirst", RelsInfraMixed: c.Prof.Chain == "infraMixed", Strict: c.Prof.Conf == "strict", Sp: c.Prof.Xml.spelling()}
 		for _, p := range c.Parts {
-			d.Slides = append(d.Slides, ooxmlw.PSlide{Text: c18Tok(p.ID), SldID: 256 + 2*p.Rel + p.ID*16, RID: fmt.Sprintf("rId%d", 3+p.Rel),
+			nt := ""
+			if p.Notes {
+				nt = c18Tok(p.ID + 200)
+			}
+			d.Slides = append(d.Slides, ooxmlw.PSlide{Notes: nt, NotesNo: p.Name.N, Text: c18Tok(p.ID), SldID: 256 + 2*p.Rel + p.ID*16, RID: fmt.Sprintf("rId%d", 3+p.Rel),
 				PartName: c18NameStr(p.Name), Target: c18HrefStr(p.Href), DeclPos: p.Decl, RelPos: p.Rel, ZipPos: p.Zip + 1, Absent: !p.Present})
 		}
 		return d.Members(), ".pptx"
@@ -346,7 +352,7 @@ func c18Observe(path, fm string) []c18API {
 			a.Pages = [][]int{}
 			for i := 0; i < r.SlideCount(); i++ {
 				sl, _ := r.Slide(i)
-				a.Pages = append(a.Pages, c18Toks(c18TokRe, sl.GetText()))
+				a.Pages = append(a.Pages, c18Toks(c18TokRe, sl.GetText()+"\n"+sl.Notes))
 			}
 			r.Close()
 		}
@@ -529,8 +535,93 @@ func c18DecoyName(c *c18Case) string {
 
 type c18Mismatch struct{ API, Symptom, What string }
 
+// APIs whose result includes the speaker notes of every slide they present
+var c18NotesAPIs = map[string]bool{"Text": true, "ToMarkdown": true, "ToMarkdownWithOptions": true, "ExcludeHeadersAndFooters().Text": true,
+	"pptx.Reader": true, "pptx.Text+notes": true}
+
+func c18IsNote(t int) bool { return t >= 200 && t < 300 }
+
+// c18Notes checks the attachments: a notes token belongs to the page of its slide (same page;
+// in a flat view: after the slide's token and before the next slide's) and only there, and a
+// view that includes notes shows the notes of every presented slide that has some. It returns
+// the API with the notes tokens removed.
+func c18Notes(c *c18Case, a c18API) (c18API, *c18Mismatch) {
+	has := map[int]bool{}
+	for _, p := range c.Parts {
+		if p.Notes && p.Present && p.Decl > 0 {
+			has[p.ID] = true
+		}
+	}
+	out := a
+	seen := map[int]bool{}
+	bad := func(n, page int) *c18Mismatch {
+		return &c18Mismatch{a.Name, "notes:wrong-page", fmt.Sprintf("the notes of part %d (token %s) are shown with part %d", n-200, c18Tok(n), page)}
+	}
+	if a.Pages != nil {
+		out.Pages = [][]int{}
+		for _, pg := range a.Pages {
+			var main []int
+			for _, t := range pg {
+				if !c18IsNote(t) {
+					main = append(main, t)
+				}
+			}
+			for _, t := range pg {
+				if c18IsNote(t) {
+					if len(main) != 1 || main[0] != t-200 {
+						owner := -1
+						if len(main) > 0 {
+							owner = main[0]
+						}
+						return out, bad(t, owner)
+					}
+					seen[t-200] = true
+				}
+			}
+			if main == nil {
+				main = []int{}
+			}
+			out.Pages = append(out.Pages, main)
+		}
+	}
+	if a.Flat != nil {
+		out.Flat = []int{}
+		cur := -1
+		for _, t := range a.Flat {
+			if c18IsNote(t) {
+				if cur != t-200 {
+					return out, bad(t, cur)
+				}
+				seen[t-200] = true
+				continue
+			}
+			cur = t
+			out.Flat = append(out.Flat, t)
+		}
+	}
+	if c18NotesAPIs[a.Name] && a.Err == "" {
+		shown := out.Flat
+		if a.Pages != nil {
+			shown = nil
+			for _, pg := range out.Pages {
+				shown = append(shown, pg...)
+			}
+		}
+		for _, id := range shown {
+			if has[id] && !seen[id] {
+				return out, &c18Mismatch{a.Name, "notes:missing", fmt.Sprintf("part %d is presented without its notes (token %s); %s includes speaker notes", id, c18Tok(id+200), a.Name)}
+			}
+		}
+	}
+	return out, nil
+}
+
 func c18Check(c *c18Case, obs []c18API) *c18Mismatch {
-	for _, a := range obs {
+	for _, a0 := range obs {
+		a, nm := c18Notes(c, a0)
+		if nm != nil {
+			return nm
+		}
 		if a.Err != "" {
 			if c.Prof.Missing > 0 {
 				// the statement does not say whether a reader may refuse a document one of
